@@ -453,6 +453,16 @@ def install(eng):
             return opt(eng, oty)
         return eng.call_value(ctx.frame, f, [payload0(eng, e, 'Some')])
     m(r'^(std::option::|core::option::)?Option::and_then$', m_opt_and_then)
+    def m_opt_filter(eng, args, ctx):
+        e, f = args
+        oty = norm_ty(ctx.dest_ty) if ctx.dest_ty else e.ty
+        if variant_is(eng, e, 0):
+            return opt(eng, oty)
+        v = payload0(eng, e, 'Some')
+        if eng.fork_bool(to_z3_bool(eng.call_value(ctx.frame, f, [Ref(Cell(v))]))):
+            return opt(eng, oty, v)
+        return opt(eng, oty)
+    m(r'^(std::option::|core::option::)?Option::filter$', m_opt_filter)
     def m_opt_unwrap_or(eng, args, ctx):
         e, d = args
         if variant_is(eng, e, 1):
